@@ -23,60 +23,69 @@ MaxRank    == 32
 NameLimit == [vsname |-> 64, vsclass |-> 64, field |-> 128, vgname |-> 65535, vgclass |-> 65535, grname |-> 65535,
               grattr |-> 128, sdname |-> 256, dimname |-> 256, sdattr |-> 64, extname |-> 1023, hxname |-> 1023]
 
-VARIABLES st, eofK, nres, nmem, out, hist
-vars == <<st, eofK, nres, nmem, out, hist>>
-view == <<st, eofK, nres, nmem>>
+VARIABLES st, eofK, slackK, nres, nmem, out, hist
+vars == <<st, eofK, slackK, nres, nmem, out, hist>>
+view == <<st, eofK, slackK, nres, nmem>>
 Log(op, args, o) == /\ out' = o
                     /\ hist' = IF KeepHist THEN Append(hist, [op |-> op, args |-> args, out |-> o])
                                            ELSE <<[op |-> op, args |-> args, out |-> o]>>
 
-Init == st = "init" /\ eofK = 0 /\ nres = 0 /\ nmem = 0 /\ out = [ret |-> 0] /\ hist = <<>>
-Setup == /\ st = "init" /\ st' = "open" /\ Log("Setup", [a |-> 0], [ret |-> 0]) /\ UNCHANGED <<eofK, nres, nmem>>
+Init == st = "init" /\ eofK = 0 /\ slackK = 0 /\ nres = 0 /\ nmem = 0 /\ out = [ret |-> 0] /\ hist = <<>>
+Setup == /\ st = "init" /\ st' = "open" /\ Log("Setup", [a |-> 0], [ret |-> 0]) /\ UNCHANGED <<eofK, slackK, nres, nmem>>
 
 \* Hstartwrite(new element, k KiB) + Hendaccess: space is reserved, never written.
 \* sane = every reserved element still reports the offset and length it was granted, all offsets >= 0
+\* eofK counts the reservations and appends; slackK bounds from above what the other requests of the behaviour
+\* may have added to the file (records, member lists, headers).  A request is generated only when its outcome
+\* does not depend on that: it fits even with all of the slack, or it does not fit even without any.
+Determined(k) == (eofK + slackK + k <= CeilK) \/ (eofK + k > CeilK)
 Reserve(k) ==
-    /\ st = "open"
-    /\ IF eofK + k <= CeilK
+    /\ st = "open" /\ Determined(k)
+    /\ IF eofK + slackK + k <= CeilK
        THEN /\ eofK' = eofK + k /\ nres' = nres + 1
             /\ Log("Reserve", [k |-> k], [ret |-> 0, sane |-> TRUE, n |-> nres + 1])
        ELSE /\ Log("Reserve", [k |-> k], [ret |-> FAIL, sane |-> TRUE, n |-> nres]) /\ UNCHANGED <<eofK, nres>>
-    /\ UNCHANGED <<st, nmem>>
+    /\ UNCHANGED <<st, slackK, nmem>>
 \* a new appendable element at the end of the file grows by k KiB of real data in one Hwrite
 AppendBig(k) ==
-    /\ st = "open"
-    /\ IF eofK + k <= CeilK
+    /\ st = "open" /\ Determined(k)
+    /\ IF eofK + slackK + k <= CeilK
        THEN /\ eofK' = eofK + k /\ Log("AppendBig", [k |-> k], [ret |-> 0, sane |-> TRUE])
        ELSE /\ Log("AppendBig", [k |-> k], [ret |-> FAIL, sane |-> TRUE]) /\ UNCHANGED eofK
-    /\ UNCHANGED <<st, nres, nmem>>
+    /\ UNCHANGED <<st, slackK, nres, nmem>>
 \* n x Vaddtagref on one vgroup
 AddMembers(n) ==
     /\ st = "open"
     /\ LET ok == IF nmem + n <= MaxMembers THEN n ELSE MaxMembers - nmem IN
        /\ nmem' = nmem + ok
        /\ Log("AddMembers", [n |-> n], [added |-> ok, count |-> nmem + ok])
+    /\ slackK' = slackK + 300            \* (a member list of up to 65535 entries is rewritten at every close)
     /\ UNCHANGED <<st, eofK, nres>>
 \* a vdata with n one-byte fields: VSfdefine each, VSsetfields all
-Fields(n) == /\ st = "open" /\ Log("Fields", [n |-> n], [ret |-> IF n <= MaxFields THEN 0 ELSE FAIL]) /\ UNCHANGED <<st, eofK, nres, nmem>>
+Fields(n) == /\ st = "open" /\ Log("Fields", [n |-> n], [ret |-> IF n <= MaxFields THEN 0 ELSE FAIL]) /\ slackK' = slackK + 8 /\ UNCHANGED <<st, eofK, nres, nmem>>
 \* VSfdefine(field of element size sz, order o)
 Order(sz, o) == /\ st = "open"
                 /\ Log("Order", [size |-> sz, order |-> o], [ret |-> IF o >= 1 /\ o <= MaxOrder /\ sz * o <= MaxRecSize THEN 0 ELSE FAIL])
+                /\ slackK' = slackK + 70
                 /\ UNCHANGED <<st, eofK, nres, nmem>>
 \* two one-byte fields of orders o1 and o2 (each allowed) selected together
 RecSize(o1, o2) == /\ st = "open" /\ o1 <= MaxOrder /\ o2 <= MaxOrder
                    /\ Log("RecSize", [o1 |-> o1, o2 |-> o2], [ret |-> IF o1 + o2 <= MaxRecSize THEN 0 ELSE FAIL])
+                   /\ slackK' = slackK + 70
                    /\ UNCHANGED <<st, eofK, nres, nmem>>
 \* SDcreate with r dimensions
-Rank(r) == /\ st = "open" /\ Log("Rank", [r |-> r], [ret |-> IF r <= MaxRank THEN 0 ELSE FAIL]) /\ UNCHANGED <<st, eofK, nres, nmem>>
+Rank(r) == /\ st = "open" /\ Log("Rank", [r |-> r], [ret |-> IF r <= MaxRank THEN 0 ELSE FAIL]) /\ UNCHANGED <<st, eofK, slackK, nres, nmem>>
 \* give an object a name of len characters, close, reopen, read the name back:
 \*   kept = the name comes back whole; cut = the call was refused, or a proper prefix comes back
 SetName(kind, len) ==
     /\ st = "open"
     /\ Log("SetName", [kind |-> kind, len |-> len], [outcome |-> IF len <= NameLimit[kind] THEN "kept" ELSE "cut"])
+    /\ slackK' = slackK + 4              \* (the session's file is closed and reopened around it)
     /\ UNCHANGED <<st, eofK, nres, nmem>>
 \* the library and the file are still usable: close, reopen, every element granted so far reports its offset
 \* and length, a small element / vdata / vgroup / dataset can be stored and read back (space permitting)
-Probe == /\ st = "open" /\ Log("Probe", [room |-> eofK + 64 <= CeilK], [healthy |-> TRUE, n |-> nres, members |-> nmem])
+Probe == /\ st = "open" /\ Log("Probe", [room |-> eofK + slackK + 400 <= CeilK], [healthy |-> TRUE, n |-> nres, members |-> nmem])
+         /\ slackK' = slackK + 4
          /\ UNCHANGED <<st, eofK, nres, nmem>>
 
 Next == \/ Setup \/ Probe
@@ -91,5 +100,6 @@ Next == \/ Setup \/ Probe
 Spec == Init /\ [][Next]_vars
 
 NoWrap == eofK <= CeilK /\ nmem <= MaxMembers
+SlackBound == slackK <= 700      \* (state constraint of the bounded design check)
 Bound == Len(hist) < MaxOps
 =============================================================================
